@@ -51,6 +51,15 @@ PROPS = {
         exhaustive=True,
         rule="all 65,536 session ids through the constructors, all 256 status and reason codes, all 65,536 (PType, SType) pairs through Type() (and a ninth of them, plus PType 0..2 completely, through the decoder); distinct = distinct case texts",
     ),
+    "C07": dict(
+        prop_file="props/C07.v", proof_files=WIRE_PROOFS, tie_files=["TablesTie.v"],
+        suites=["C07"],
+        decisive=["kind", "bytes", "str", "entries"],
+        decisive_why="C03_sound/C03_complete pin which inputs are accepted and what they decode to",
+        extra=extras.hostile_hsms_stage,
+        assumptions=["partial: GC behaviour and the goroutine stack cap are the runtime's; time is not part of C07 (decoding is quadratic in the nesting depth)",
+                     "TotalAlloc is measured per input in a worker subprocess; the linear bound (2048 bytes per input byte + 64 KiB) is about 4x the worst ratio seen on the clean tree"],
+    ),
     "C09": dict(
         prop_file="props/C09.v", proof_files=WIRE_PROOFS + AST_PROOFS, tie_files=["TablesTie.v"],
         suites=["C09"],
